@@ -54,7 +54,8 @@ CLAIMS = {
         "the last decimal modulo 360/24, canonical tuple recombining to 1e-9 degree) is a TLA+ predicate over the printed "
         "fields; TLC model-checks an integer carry model of dms_str against it on all carry windows and then judges, in exact "
         "fixed point, every string and tuple the real Angle produces for the same grid and for seeded boundary-focused "
-        "values (1e-12 / 1-3 ulp / half-unit neighbours of whole seconds, minutes, degrees, hours, 0, +-360, denormals).",
+        "values (1e-12 / 1-3 ulp / half-unit neighbours of whole seconds, minutes, degrees, hours, 0, +-360, denormals) and "
+        "sub-degree values 1.5e-11 arcsec either side of rounding ties, judged to 7e-12 arcsec (single rounding).",
    note="Trusted: TLC, Fix.tla, the ~30-line regex tokeniser that splits the printed string into its numeric fields as text "
         "(decimal text -> exact rational), float->Fix conversion.",
    technique="TLA+ print-law predicate; carry model model-checked by TLC; trace validation of real strings/tuples",
@@ -82,7 +83,8 @@ CLAIMS = {
         "small integer data set and replays all of those through the real class; for seeded 2-200-point data on a 1/4 grid TLC "
         "recomputes sums and determinants exactly in fixed point and judges the returned coefficients cross-multiplied "
         "(1e-6), degenerate data must raise ZeroDivisionError, correlation satisfies r^2 Dx Dy = Nxy^2 with the right sign "
-        "and range, general_fitting reproduces the quadratic/linear fit and leaves residuals orthogonal to free bases.",
+        "and range, general_fitting reproduces the quadratic/linear fit and leaves residuals orthogonal to free bases "
+        "(incl. a basis function that is tiny on the table, judged on column-normalised conditioning).",
    note="Trusted: TLC, Fix.tla, math.sin/cos/exp used only to tabulate witness basis values for the free-basis orthogonality clause.",
    technique="TLA+ normal-equation spec model-checked on small data sets + trace validation with exact fixed-point sums",
    ref="5/C17"),
@@ -101,7 +103,9 @@ CLAIMS = {
         "mean periods as constants; an abstract nearest-event finder is model-checked against it; every one of the 56 finder "
         "variants is swept with sorted queries at 1/20-period steps over windows across -2000..4000 and TLC evaluates the "
         "protocol as an action property over consecutive events; for sampled events TLC checks on the library's own VSOP87 "
-        "positions at r, r+-tol, r+-2tol that the defining sign change/extremum happens there.",
+        "positions at r, r+-tol, r+-2tol that the defining sign change/extremum happens there, and (sharp form) that the slope of "
+        "the extremal quantity changes sign between r-tol and r+tol; whole windows in which EVERY event is asked for and judged "
+        "(thorough: every event of every finder over -2000..4000).",
    note="Trusted: TLC, Fix.tla, period constants from Meeus' tables, the harness wiring of the library's own positions "
         "(geocentric_position, Sun.apparent_geocentric_position, equatorial2ecliptical) into the five-point stencils.",
    technique="TLA+ finder protocol (action property over sorted query traces) + event-reality stencils judged by TLC",
@@ -111,7 +115,8 @@ CLAIMS = {
         "Sun-Earth-Moon triangle computed by TLC from witnesses it verifies, daily motion and secular node/perigee rates as "
         "action properties over consecutive events) and the four lunar finders with the finder protocol of Finders.tla (never "
         "backwards, one month apart, within 1.6 months, total on every calendar day of sample years in both calendars) plus "
-        "event reality on the library's own positions.",
+        "event reality on the library's own positions (phase longitude 0.06 deg; distance / declination slope changes sign within "
+        "+-0.25 d; latitude 0.02 deg), for sampled events and for EVERY event of whole windows (thorough: all of -2000..-1400).",
    note="Trusted: TLC, Fix.tla, math.sin/cos/sqrt for witnesses (unit norm and square verified by the spec), wiring of "
         "Moon.apparent_ecliptical_pos / Sun.apparent_geocentric_position into the checks.",
    technique="TLA+ orbit invariants + finder protocol as action properties; trace validation with verified witnesses",
@@ -186,7 +191,8 @@ CLAIMS = {
         "and Pluto the direction must point along P(t - tau) - E(t) with the light-time fixed point verified in the spec; for "
         "minor bodies the heliocentric point implied by the returned direction must lie in the orbital plane, on the conic and "
         "at the place Kepler's (ellipse) or Barker's (parabola) equation assigns to t - tau - T; elongation against the apparent "
-        "Sun, ranges, and the caller's Epoch left unshifted. All relations are polynomial identities over verified witnesses.",
+        "Sun, ranges, and the caller's Epoch left unshifted. All relations are polynomial identities over verified witnesses; "
+        "the true-obliquity witness is itself validated against Laskar's polynomial evaluated by TLC.",
    note="Trusted: TLC, Fix.tla, math.sin/cos/sqrt/atan2 for the witnesses and the ~20-line construction of the orbit frame "
         "(normal, perihelion direction) from i, node, argument of perihelion.",
    technique="TLA+ vector identities over verified witnesses; trace validation",
